@@ -58,6 +58,8 @@
 #include <stdint.h>
 #include <unistd.h>
 #include <signal.h>
+#include <errno.h>
+#include <time.h>
 #include <sys/types.h>
 #include <sys/wait.h>
 #include <alloca.h>
@@ -70,7 +72,7 @@
 #define MANY_FID 3
 #define MAXEV 200000
 #define CHILD_TIMEOUT 10
-#define BIG_TIMEOUT 90
+#define BIG_TIMEOUT 45
 #define MAXW 64
 
 typedef struct { int fid; long off; myth_thread_t self; long atag; } inv_t;
@@ -410,7 +412,27 @@ static void run_big(int W, const char * kind, long n, int ny) {
   emit_and_exit(g_out, 0);
 }
 
+
+/* wait for the child at most `limit` seconds (SIGCHLD is blocked in main and consumed here); a child that
+   is still running then is killed: the library may handle or block SIGALRM, so its own alarm is not enough */
+static int wait_child(pid_t pid, int limit, int * st) {
+  sigset_t ss; struct timespec to;
+  sigemptyset(&ss); sigaddset(&ss, SIGCHLD);
+  to.tv_sec = limit; to.tv_nsec = 0;
+  for (;;) {
+    pid_t r = waitpid(pid, st, WNOHANG);
+    if (r == pid) return 0;
+    if (r < 0) return -1;
+    if (sigtimedwait(&ss, 0, &to) < 0 && errno == EAGAIN) {
+      kill(pid, SIGKILL);
+      waitpid(pid, st, 0);
+      return 1;
+    }
+  }
+}
+
 int main(void) {
+  { sigset_t ss; sigemptyset(&ss); sigaddset(&ss, SIGCHLD); sigprocmask(SIG_BLOCK, &ss, 0); }
   char line[1024];
   while (fgets(line, sizeof line, stdin)) {
     char op[32] = "", kind[32] = "";
@@ -446,7 +468,9 @@ int main(void) {
         run_bulk(W, kind, n, fs, as, rs, is, ts, hr, hi, ht, cf, sk, seed, wk);
         _exit(0);
       }
-      if (waitpid(pid, &st, 0) < 0) { printf("outcome=waitfail\n"); }
+      int wr = wait_child(pid, (big ? BIG_TIMEOUT : CHILD_TIMEOUT) + 2, &st);
+      if (wr < 0) { printf("outcome=waitfail\n"); }
+      else if (wr == 1) { printf("outcome=timeout\n"); }
       else if (WIFSIGNALED(st)) {
         if (WTERMSIG(st) == SIGALRM) printf("outcome=timeout\n");
         else printf("outcome=signal:%d\n", WTERMSIG(st));
